@@ -668,6 +668,20 @@ func (c *codecV2) DecodeResponse(req *tikvrpc.Request, resp *tikvrpc.Response) (
 		if err != nil {
 			return nil, err
 		}
+		// Responses of the store-batched tasks carry their own region error and lock.
+		for _, batchResp := range r.BatchResponses {
+			if batchResp == nil {
+				continue
+			}
+			batchResp.RegionError, err = c.decodeRegionError(batchResp.RegionError)
+			if err != nil {
+				return nil, err
+			}
+			batchResp.Locked, err = c.decodeLockInfo(batchResp.Locked)
+			if err != nil {
+				return nil, err
+			}
+		}
 	case tikvrpc.CmdCopStream:
 		return nil, errors.New("streaming coprocessor is not supported yet")
 	case tikvrpc.CmdBatchCop, tikvrpc.CmdMPPTask:
